@@ -17,6 +17,8 @@ Decided (structural, on the polymorphic MIR):
     copied from the shadow element to the device table.
  F7 release relinks the freed chain to the previous free list (C03.E6).  F8 the submission form agrees with the capacity
     test (C03.E3).  F9 every share/unshare receives the queue's one access-platform field (C04.P9).
+ F12 the device is told where the rings are: transports' queue_set write each area address, low and high word, into that
+     area's registers (= C10.M2 / C11.W3 traces); F11 also carries C06.L3's accessor / ring-pointer obligations.
 Not decided: acyclicity / disjointness of chains over unbounded histories (free-list shape).
 """
 from .common import *
